@@ -28,7 +28,7 @@ def unpack_opargs_wordcode(code, opc):
         code = code.co_code
         n = len(code)
 
-    if isinstance(code[0], str):
+    if n and isinstance(code[0], str):
         # This happens handling Python 3.x on a 2.x interpreter
         for i in range(0, n, 2):
             op = ord(code[i])
